@@ -205,6 +205,15 @@ func (r *c41Run) held(i int) string {
 	if _, ok := r.env.acts[i].tombstones[r.key.ID()]; ok {
 		return "while-its-tombstone-is-held"
 	}
+	// structural precondition of the one known way to get here: a tombstone with an older deletion
+	// time was received after one with a newer deletion time
+	for a := range r.recvd[i] {
+		for b := a + 1; b < len(r.recvd[i]); b++ {
+			if r.recvd[i][b].Before(r.recvd[i][a]) {
+				return "tombstone-no-longer-held-before-expiry--older-tombstone-received-after-newer"
+			}
+		}
+	}
 	return "tombstone-no-longer-held-before-expiry"
 }
 
@@ -360,5 +369,5 @@ func TestVerifC41(t *testing.T) {
 	start := time.Now()
 	c41Scenario(t, "c41/flag/r2", 2, vsched.Pick(7, 8), true, c41Deadline(start, 0.5))
 	c41Scenario(t, "c41/gcounter/r2", 2, vsched.Pick(5, 6), false, c41Deadline(start, 0.75))
-	c41Scenario(t, "c41/flag/r3", 3, vsched.Pick(5, 6), true, c41Deadline(start, 1.0))
+	c41Scenario(t, "c41/flag/r3", 3, vsched.Pick(4, 6), true, c41Deadline(start, 1.0))
 }
